@@ -154,7 +154,7 @@ UNITS = {
                                      "const:STATUS_CODE_REASON_PHRASE", "struct:Error"]),
             ("src/server/mod.rs", ["struct:ConnectionInfo", "struct:Address"]),
             ("src/mime_type/mod.rs", ["struct:MimeType", "consts:MimeType", "fn:MimeType::detect_mime_type:assume"]),
-            ("src/url/mod.rs", ["struct:URL", "fn:URL::parse:assume", "fn:URL::is_path_inside_root"]),
+            ("src/url/mod.rs", ["struct:URL", "fn:URL::parse:assume", "fn:URL::parse_request_target", "fn:URL::is_path_inside_root"]),
             ("src/range/mod.rs", ["struct:Range", "struct:ContentRange", "consts:Range", "fn:Range::parse_content_range:assume",
                                   "fn:Range::get_content_range", "fn:Range::get_content_range_list"]),
             ("src/app/controller/static_resource/mod.rs", ["struct:StaticResourceController", "fn:StaticResourceController::is_matching",
